@@ -103,6 +103,11 @@ func c06(r *Report, s *Sem) {
 		}
 	}
 
+	checkReaderNeverNilNil(r, s, R3)
+	R6 := r.Rule("R6", "after the session ends, sends fail: the client folds a server-initiated terminal session into its state as soon as the receiver sees it, and the server's FinishSession/FailSession leave the channel terminal even when writing the terminal envelope failed", 3)
+	checkClientFoldsTerminal(r, s, R6)
+	checkTerminatingCallsTerminal(r, s, R6)
+
 	// ---- R4
 	if a.receiver == nil || a.goSite == nil || a.startFn == nil {
 		r.Undecided(R4, "anchor-unresolved:receiver goroutine", "-", "no go statement spawning a function that calls Transport.Receive")
